@@ -243,3 +243,88 @@ func e2eCLI(model map[string]interface{}) (bool, string) {
 	}
 	return deviations > 0, log.String()
 }
+
+// e2eRegen replays a C12 counterexample end to end: whatever the output path holds before a run
+// (older/longer output, every kind of truncation, broken Go of the same package), the run must
+// behave exactly as on an empty path; -out naming the input must be rejected without touching it.
+func e2eRegen(model map[string]interface{}) (bool, string) {
+	tmp, err := os.MkdirTemp("", "symgo-e2e")
+	if err != nil {
+		return false, err.Error()
+	}
+	defer os.RemoveAll(tmp)
+	bin, err := buildTool(tmp)
+	if err != nil {
+		return false, err.Error()
+	}
+	var log strings.Builder
+	deviations := 0
+	dev := func(f string, a ...interface{}) {
+		deviations++
+		fmt.Fprintf(&log, "DEVIATION: "+f+"\n", a...)
+	}
+	run := func(dir string, args ...string) (int, string) {
+		cmd := exec.Command(bin, args...)
+		cmd.Dir = dir
+		cmd.Env = goEnv()
+		out, err := cmd.CombinedOutput()
+		if err != nil {
+			if ee, ok := err.(*exec.ExitError); ok {
+				return ee.ExitCode(), string(out)
+			}
+			return 1, string(out)
+		}
+		return 0, string(out)
+	}
+	ref := filepath.Join(tmp, "ref")
+	writeModule(ref, e2eSetup)
+	if rc, out := run(ref, "setup.go"); rc != 0 {
+		return false, "reference run failed: " + out
+	}
+	want, _ := os.ReadFile(filepath.Join(ref, "setup.gen.go"))
+	longer := string(want) + "\n// trailing content of an older, longer output\nfunc Stale() {}\n"
+	states := map[string]string{"longer older output": longer, "empty file": "", "broken Go": "package e2e\n\nfunc ( {\n",
+		"only a comment": "// Code generated\n", "wrong declarations": "package e2e\n\ntype Src int\n"}
+	for _, cut := range []int{1, 10, 40, 60, 75, 90, 120, len(want) / 2, len(want) - 1} {
+		if cut > 0 && cut < len(want) {
+			states[fmt.Sprintf("truncated at byte %d", cut)] = string(want[:cut])
+		}
+	}
+	var keys []string
+	for k := range states {
+		keys = append(keys, k)
+	}
+	sort.Strings(keys)
+	for _, k := range keys {
+		dir := filepath.Join(tmp, "m")
+		os.RemoveAll(dir)
+		writeModule(dir, e2eSetup)
+		os.WriteFile(filepath.Join(dir, "setup.gen.go"), []byte(states[k]), 0644)
+		rc, out := run(dir, "setup.go")
+		got, _ := os.ReadFile(filepath.Join(dir, "setup.gen.go"))
+		fmt.Fprintf(&log, "output path holds: %s -> exit %d\n", k, rc)
+		if rc != 0 {
+			dev("run fails when the output path holds %s: %s", k, clip(out, 300))
+		} else if string(got) != string(want) {
+			dev("output differs from a run on an empty path when the output path held %s", k)
+		}
+	}
+	// twice in a row
+	dir := filepath.Join(tmp, "twice")
+	writeModule(dir, e2eSetup)
+	run(dir, "setup.go")
+	rc, _ := run(dir, "setup.go")
+	got, _ := os.ReadFile(filepath.Join(dir, "setup.gen.go"))
+	if rc != 0 || string(got) != string(want) {
+		dev("second run in a row changes the result (exit %d)", rc)
+	}
+	// -out naming the input file
+	dir = filepath.Join(tmp, "outin")
+	writeModule(dir, e2eSetup)
+	rc, out := run(dir, "-out", "setup.go", "setup.go")
+	after, _ := os.ReadFile(filepath.Join(dir, "setup.go"))
+	if rc == 0 || string(after) != e2eSetup {
+		dev("-out naming the input file: exit %d, input file modified=%v: %s", rc, string(after) != e2eSetup, clip(out, 200))
+	}
+	return deviations > 0, log.String()
+}
